@@ -6,6 +6,12 @@ C17.tree   full decision tree of <Serial as PartialOrd>::partial_cmp against
 C17.add    Serial::add wraps and is guarded by other <= 2^31-1.
 C17.deleg  Timestamp ordering delegates to Serial; no total order (Ord) for
            Serial/Timestamp; equality is plain integer equality.
+C17.ixfr   the IXFR server's "client is up to date" shortcut (single-SOA reply)
+           is taken on the *true* outcome of `query serial >= zone serial`;
+           for a partial order `!(a < b)` is not `a >= b` (serials 2^31 apart).
+C17.wrap   dates converted to signature times wrap modulo 2^32 (a plain
+           truncating cast of the seconds) in Timestamp::scan and in its
+           FromStr sibling alike -- never clamp.
 C17.use    serial numbers / signature times are never ordered or subtracted
            as raw integers outside wire-order (canonical) impls.
 """
@@ -48,6 +54,8 @@ def run(ctx):
     )
     rule_tree(ctx, F)
     rule_add(ctx, F)
+    rule_ixfr(ctx, F)
+    rule_wrap(ctx, F)
     rule_deleg(ctx, F)
     rule_use(ctx, F)
 
@@ -350,6 +358,66 @@ def _check_table(ctx, R, b, what, table, problems):
         ctx.ob(R, b, "case %s" % names[key], got == (want if want is not None else "None"),
                "RFC 1982 requires %s, %s yields %s" % (want, what, got))
     return {names[k]: v for k, v in table.items()}
+
+
+def rule_ixfr(ctx, F):
+    from rulelib import facts_at
+    R = "C17.ixfr"
+    ctx.floor(R, 1)
+    bs = [b for p, b in F.bodies.items() if re.match(r"^net::server::middleware::xfr::service::XfrMiddlewareSvc::<.*>::respond_to_ixfr_query::\{closure#0\}$", p)]
+    if not ctx.anchor(R, "XfrMiddlewareSvc::respond_to_ixfr_query", len(bs) == 1):
+        return
+    b = bs[0]
+    # the shortcut: the zone's SOA answer is turned into the (only) response message
+    sites = [bb for bb, t in b.calls() if (t["fn"] or "").endswith("Answer::to_message")]
+    if not ctx.anchor(R, "single-SOA reply (Answer::to_message) in respond_to_ixfr_query", len(sites) >= 1, b.where()):
+        return
+    for bb in sites:
+        pos = False
+        seen = []
+        for tt, v, _ in facts_at(b, bb, F):
+            s = deep_strip(tt)
+            if s[0] == "call" and re.search(r"PartialOrd(<.*>)?>?::(ge|le|gt|lt)$", s[1] or "") and "serial" in show(s):
+                op = s[1].split("::")[-1]
+                seen.append((op, v))
+                a0 = show(deep_strip(s[3][0]))
+                zone_first = "serial(" in a0          # zone serial on the left: zone <= query
+                if v is True and ((op == "ge" and not zone_first) or (op == "le" and zone_first)):
+                    pos = True
+        ctx.ob(R, b, "the up-to-date reply needs `query serial >= zone serial` to be true", pos,
+               "respond_to_ixfr_query answers with the single SOA ('you are up to date') on %s: for serials whose order is "
+               "undefined (exactly 2^31 apart) a negated comparison is true, and a client that is two steps behind is told it "
+               "has the current version" % (", ".join("%s == %s" % x for x in seen) or "no serial comparison at all"), b.where(bb))
+
+
+def rule_wrap(ctx, F):
+    R = "C17.wrap"
+    ctx.floor(R, 2)
+    n = 0
+    for p, b in sorted(F.bodies.items()):
+        if not re.match(r"^rdata::dnssec::Timestamp::scan::<.*>::\{closure#0\}$|^rdata::dnssec::Timestamp::scan::\{closure#0\}$|"
+                        r"^<rdata::dnssec::Timestamp as core::str::FromStr>::from_str$", p):
+            continue
+        for bi in sorted(b.reachable_blocks()):
+            for st in b.blocks[bi]["s"]:
+                if st[0] != "=" or st[2][0] != "agg" or st[2][1][0] != "adt" or not str(st[2][1][1]).endswith("serial::Serial"):
+                    continue
+                v = b.term_of_operand(st[2][2][0])
+                if "as_second" not in show(v):
+                    continue
+                n += 1
+                x = strip(v, calls=False)
+                plain = x[0] == "cast"
+                inner = x
+                while inner[0] == "cast":
+                    inner = strip(inner[2], calls=False)
+                plain = plain and inner[0] == "call" and (inner[1] or "").endswith("as_second")
+                ctx.ob(R, b, "date -> signature time #%d is a wrapping cast" % n, plain,
+                       "%s turns the date's seconds into a signature time with %s instead of a truncating cast: dates beyond the "
+                       "32-bit range no longer wrap (RFC 4034 3.1.5 uses serial number arithmetic), and the text reader and "
+                       "FromStr disagree" % (p.split("::")[2] + "::" + p.split("::")[3].split("::")[0], show(deep_strip(v))[:90]), b.where(bi))
+    ctx.ob(R, "rdata::dnssec::Timestamp", "both text readers convert dates", n >= 2,
+           "expected a date conversion in Timestamp::scan and in FromStr, found %d" % n, nontrivial=False)
 
 
 def rule_tree(ctx, F):
